@@ -311,19 +311,29 @@ def compare(c, o, m):
         from fractions import Fraction
         f = lambda q: float(Fraction(q[0], q[1]))  # noqa
 
-        def canon(t):
-            # cyclic rotation to the smallest corner: keeps the orientation
-            t = [tuple(round(x, 9) + 0.0 for x in p) for p in t]
-            k = t.index(min(t))
-            return tuple(t[k:] + t[:k])
         if any(p == "in_plane" for p in m["pieces"]):
             return None        # faces lying in the plane are decided by their normal in the code
-        want = sorted(canon([[f(x) for x in p] for p in t]) for ps in m["pieces"] for t in ps)
-        got = sorted(canon(t) for t in o["slice_tris"])
-        if want != got:
-            extra = [t for t in got if t not in want][:1]
-            miss = [t for t in want if t not in got][:1]
-            return f"slice pieces differ from the model: {len(got)} vs {len(want)} triangles, e.g. code-only {extra} model-only {miss}"
+        W = np.array([[[f(x) for x in p] for p in t] for ps in m["pieces"] for t in ps]).reshape(-1, 3, 3)
+        G = np.array(o["slice_tris"]).reshape(-1, 3, 3)
+        if len(W) != len(G):
+            return f"slice pieces differ from the model: {len(G)} vs {len(W)} triangles"
+        if len(W):
+            # tolerant matching: same corners up to a cyclic rotation (orientation kept), each triangle used once
+            from scipy.spatial import cKDTree
+            tol = 1e-9 * max(1.0, float(np.abs(W).max()))
+            tree = cKDTree(G.mean(axis=1))
+            used = set()
+            for w in W:
+                hit = None
+                for gi in tree.query_ball_point(w.mean(axis=0), 10 * tol + 1e-12):
+                    if gi in used:
+                        continue
+                    if min(np.abs(w - np.roll(G[gi], r, axis=0)).max() for r in range(3)) <= tol:
+                        hit = gi
+                        break
+                if hit is None:
+                    return f"slice pieces differ from the model: the model's piece {w.tolist()} is not among the code's"
+                used.add(hit)
         return None
     if c["kind"] == "section":
         from fractions import Fraction
@@ -339,10 +349,12 @@ def compare(c, o, m):
                 continue
             if len(got) != 1:
                 return f"face {i}: the model emits one segment, the code {len(got)}"
-            a = sorted(tuple(f(x) for x in p) for p in ms)
-            b = sorted(tuple(p) for p in got[0])
-            if np.abs(np.array(a) - np.array(b)).max() > 1e-9 * max(1.0, np.abs(np.array(a)).max()):
-                return f"face {i}: segment endpoints differ: model {a} code {b}"
+            a = np.array([[f(x) for x in p] for p in ms])
+            b = np.array(got[0])
+            # unordered pair of endpoints: the better of the two matchings
+            err = min(np.abs(a - b).max(), np.abs(a - b[::-1]).max())
+            if err > 1e-9 * max(1.0, np.abs(a).max()):
+                return f"face {i}: segment endpoints differ: model {a.tolist()} code {b.tolist()}"
         return None
     if m["segments"] != o["nlines"]:
         return f"mesh_plane on signs {c['signs']}: model emits {m['segments']} segment(s), code {o['nlines']}"
